@@ -218,7 +218,7 @@ def _plan(tier):
 
 def run(rep: Report):
     tier = rep.tier
-    opts = {"prove_timeout_ms": 10000 if tier == "quick" else 30000, "fork_timeout_ms": 2000, "seed": rep.seed, "scenario_wall_s": 240 if tier == "quick" else 1200}
+    opts = {"prove_timeout_ms": 10000 if tier == "quick" else 30000, "fork_timeout_ms": 2000, "seed": rep.seed, "scenario_wall_s": 900 if tier == "quick" else 1200}
     run_plan(rep, _plan(tier), SCENARIOS, opts)
     rep.bounds = {"atoms": "2 (quick) / <=3 (thorough)", "trials": "1 (inductive step; invariant re-established after every verdict)", "calculators": "stateless, caching, neighbour-list contracts", "drivers": "Canonical, Isobaric, Isotension, GrandCanonical (+Hamiltonian in thorough, count clause excepted)"}
     rep.assumptions = ["U is an uninterpreted function of (numbers, positions, cell): equality of energies must hold for every potential", "calculator contracts as in ase.calculators.calculator.Calculator (results rebound, atoms snapshot, recompute iff the system differs) and EMT/EAM/LJ (neighbour list rebuilt only when `numbers` changes)", "thermodynamic parameters concrete"]
